@@ -510,6 +510,8 @@ type acNode struct {
 	// every peer): the node's high-water mark when it came back, and for every key the
 	// newest version some running peer held at that moment
 	recov []acRecovery
+	// joinedAt: index of the join event that admitted the node (0 for initial members)
+	joinedAt int
 }
 
 type acRecovery struct {
@@ -944,6 +946,7 @@ func runACBody(t *testing.T, c acCase, st *drv.Stats, prop string, failp **drv.F
 					continue
 				}
 				peers = append(peers, nd.addr)
+				nd.joinedAt = ei
 				nodes = append(nodes, nd)
 				// it attached its subscribers after start-up recovery, like a restarted node
 				nd.restarted = true
@@ -1027,7 +1030,19 @@ func runACBody(t *testing.T, c acCase, st *drv.Stats, prop string, failp **drv.F
 			for _, nd := range nodes[1:] {
 				hk := nd.db.Cluster.HostKey()
 				if prev, dup := seenKey[hk]; dup {
-					fail = drv.Failf("duplicate-node-key", "whole-nodes", "nodes #%d and #%d both hold node key %d", prev, nd.id, hk)
+					// did a member restart between the two admissions? A juror keeps its
+					// approvals in memory only: after a restart it approves the same key again
+					sig := "whole-nodes"
+					lo, hi := nodes[prev].joinedAt, nd.joinedAt
+					if lo > hi {
+						lo, hi = hi, lo
+					}
+					for xi, xev := range c.Events {
+						if xev.K == "restart" && xi > lo && xi < hi {
+							sig = "whole-nodes:member-restarted-between-the-two-admissions"
+						}
+					}
+					fail = drv.Failf("duplicate-node-key", sig, "nodes #%d and #%d both hold node key %d (admitted by events %d and %d)", prev, nd.id, hk, nodes[prev].joinedAt, nd.joinedAt)
 					return
 				}
 				seenKey[hk] = nd.id
